@@ -3155,6 +3155,102 @@ stoRebuildFreeLists(void)
 	}
 }
 
+#ifdef ALDOR_VERIF
+/*
+ * Verification hooks (compiled only with -DALDOR_VERIF; see /verif/DESIGN.md).
+ *   ALDOR_VERIF_GC=every:<k>:<j>   collect when count % k == j
+ *   ALDOR_VERIF_GC=at:<i1>,<i2>..  collect exactly at those allocation counts
+ *   (prefix "m", e.g. mat:/mevery:, counts from stoVerifMark() and is inactive before it)
+ *   ALDOR_VERIF_HEAPPAD=<pages>    take that many 4K pages from the OS before the heap
+ *   ALDOR_VERIF_GC_REPORT=<file>   append "count mark gcs" at exit
+ * Forced collections only happen when gcLevel != Never; a schedule turns washing on.
+ */
+static unsigned long	stoVerifCount = 0, stoVerifMarkCount = 0, stoVerifGcs = 0;
+static int		stoVerifRead = 0, stoVerifMode = 0, stoVerifFromMark = 0;
+static int		stoVerifMarked = 0, stoVerifForceWash = 0;
+static unsigned long	stoVerifK = 0, stoVerifJ = 0;
+static unsigned long	stoVerifAt[64];
+static int		stoVerifAtN = 0, stoVerifAtI = 0;
+static const char	*stoVerifReportFile = 0;
+
+static void
+stoVerifAtExit(void)
+{
+	FILE *f;
+	if (!stoVerifReportFile) return;
+	f = fopen(stoVerifReportFile, "a");
+	if (!f) return;
+	fprintf(f, "%lu %lu %lu\n", stoVerifCount, stoVerifMarkCount, stoVerifGcs);
+	fclose(f);
+}
+
+static void
+stoVerifReadEnv(void)
+{
+	const char *s;
+	stoVerifRead = 1;
+	s = getenv("ALDOR_VERIF_GC");
+	if (s && *s == 'm') { stoVerifFromMark = 1; s++; }
+	if (s && !strncmp(s, "every:", 6)) {
+		char *e;
+		stoVerifK = strtoul(s + 6, &e, 10);
+		stoVerifJ = (*e == ':') ? strtoul(e + 1, 0, 10) : 0;
+		if (stoVerifK > 0) { stoVerifMode = 1; stoVerifJ %= stoVerifK; }
+	}
+	else if (s && !strncmp(s, "at:", 3)) {
+		char *e;
+		s += 3;
+		while (*s && stoVerifAtN < 64) {
+			stoVerifAt[stoVerifAtN++] = strtoul(s, &e, 10);
+			if (e == s) { stoVerifAtN--; break; }
+			s = (*e == ',') ? e + 1 : e;
+		}
+		stoVerifMode = 2;
+	}
+	if (stoVerifMode) { stoVerifForceWash = 1; stoMustWash = true; }
+	stoVerifReportFile = getenv("ALDOR_VERIF_GC_REPORT");
+	if (stoVerifReportFile) atexit(stoVerifAtExit);
+}
+
+static void
+stoVerifPreInit(void)
+{
+	const char *s = getenv("ALDOR_VERIF_HEAPPAD");
+	if (s) {
+		ULong n = strtoul(s, 0, 10) * 4096;
+		if (n) (void) osAlloc(&n);
+	}
+}
+
+void
+stoVerifMark(void)
+{
+	if (!stoVerifMarked) { stoVerifMarked = 1; stoVerifMarkCount = stoVerifCount; }
+}
+
+static void
+stoVerifHook(void)
+{
+	unsigned long c;
+	if (!stoVerifRead) stoVerifReadEnv();
+	c = ++stoVerifCount;
+	if (!stoVerifMode || gcLevel == StoCtl_GcLevel_Never) return;
+	if (stoVerifFromMark) {
+		if (!stoVerifMarked) return;
+		c -= stoVerifMarkCount;
+	}
+	if (stoVerifMode == 1) {
+		if (c % stoVerifK != stoVerifJ) return;
+	}
+	else {
+		while (stoVerifAtI < stoVerifAtN && stoVerifAt[stoVerifAtI] < c) stoVerifAtI++;
+		if (stoVerifAtI >= stoVerifAtN || stoVerifAt[stoVerifAtI] != c) return;
+	}
+	stoVerifGcs++;
+	stoGc();
+}
+#endif /* ALDOR_VERIF */
+
 /****************************************************************************
  *
  * :: Externally visible operations
@@ -3168,6 +3264,9 @@ stoInit(void)
 	StoInfoObj	info;
 	int	i, j, sz0, sz;
 	gcTraceFile = 0;
+#ifdef ALDOR_VERIF
+	stoVerifPreInit();
+#endif
 
 #ifdef USE_MEMORY_CLIMATE
 	limitNumberOfMemoryClimates(QmCodeMask);
@@ -3300,6 +3399,9 @@ stoAlloc(unsigned code, ULong nbytes)
 
 	if (!stoIsInit && !stoInit())
 		return (*stoError)(StoErr_CantBuild);
+#ifdef ALDOR_VERIF
+	stoVerifHook();
+#endif
 
 #ifdef USE_MEMORY_CLIMATE
 	code = getMemoryClimate();
@@ -4381,6 +4483,9 @@ stoCtl(int cmd, ...)
 		break;
 	case StoCtl_Wash:
 		stoMustWash   = va_arg(argp, Bool);
+#ifdef ALDOR_VERIF
+		if (stoVerifForceWash) stoMustWash = true;
+#endif
 		break;
 	default:
 		rc = -1;
@@ -4716,6 +4821,10 @@ stoSetHandler(StoErrorFun f)
 /*===========================================================================*/
 
 #else /* not STO_USE_BTREE */
+
+#ifdef ALDOR_VERIF
+void stoVerifMark(void) { }
+#endif
 
 /*
  * Alternate storage management schemes are based on three functions:
